@@ -275,6 +275,7 @@ Section Main.
   Variable F : facts.
   Hypothesis Fpos : f_main_pos_kinds F = [PosOnly].
   Hypothesis Fsorted : f_main_sorted F = true.
+  Hypothesis Fkeys : String.eqb (f_field_pos_key F) (f_main_pos_key F) = true.
   Implicit Types (s : sig V) (p q : param V) (vals : string -> V).
 
   Definition reqs_of s := filter (fun p => negb (has_def p)) s.
@@ -290,7 +291,7 @@ Section Main.
   Proof. split; apply Permutation_in; [|apply Permutation_sym]; apply main_order_perm. Qed.
 
   Lemma fl_pos_main p : fl_pos (main_field F p) = is_po p.
-  Proof. unfold main_field. cbn [fl_pos]. rewrite Fpos. cbn [existsb]. rewrite orb_false_r. reflexivity. Qed.
+  Proof. unfold main_field. cbn [fl_pos]. rewrite Fpos, Fkeys. cbn [existsb]. rewrite orb_false_r, andb_true_r. reflexivity. Qed.
 
   Lemma fl_has_def_main p : fl_has_def (main_field F p) = has_def p.
   Proof. reflexivity. Qed.
@@ -372,10 +373,20 @@ Section Main.
   Qed.
 
   (* ---------- the call ---------- *)
-  Lemma main_call_pos s vals xp xk :
+  Lemma main_call_pos s vals xk :
+    c_pos (main_call F s vals [] xk) = map (fun p => vals (p_name p)) (filter is_po (main_order F s)).
+  Proof.
+    unfold main_call, main_fields. cbn [c_pos].
+    rewrite (filter_map_comm (main_field F) fl_pos is_po) by apply fl_pos_main. rewrite map_map.
+    destruct (f_main_parsed_pos_first F); [apply app_nil_r | reflexivity].
+  Qed.
+
+  (* run-time positionals come after the parsed ones *)
+  Lemma main_call_pos_runtime s vals xp xk :
+    f_main_parsed_pos_first F = true ->
     c_pos (main_call F s vals xp xk) = (map (fun p => vals (p_name p)) (filter is_po (main_order F s)) ++ xp)%list.
   Proof.
-    unfold main_call, main_fields. cbn [c_pos]. f_equal.
+    intros Hf. unfold main_call, main_fields. cbn [c_pos]. rewrite Hf. f_equal.
     rewrite (filter_map_comm (main_field F) fl_pos is_po) by apply fl_pos_main. rewrite map_map. reflexivity.
   Qed.
 
@@ -425,7 +436,7 @@ Section Main.
     unfold sig_wf. intros W. apply andb_true_iff in W as [W Word]. apply andb_true_iff in W as [Wnd Wpre].
     apply str_nodupb_NoDup in Wnd. assert (Hsplit := po_prefix s Wpre).
     assert (Hpos : c_pos (main_call F s vals [] []) = map (fun p => vals (p_name p)) (filter is_po s)).
-    { rewrite main_call_pos, app_nil_r, filter_main_order by exact Word. reflexivity. }
+    { rewrite main_call_pos, filter_main_order by exact Word. reflexivity. }
     assert (Hperm : Permutation (c_kw (main_call F s vals [] [])) (want_all (filter nonpo s) vals)).
     { rewrite main_call_kw. unfold want_all. apply Permutation_map, filter_main_order_perm. }
     split; [|split; assumption].
@@ -839,13 +850,14 @@ Section Meets.
   Variable F : facts.
   Hypothesis Fpos : f_main_pos_kinds F = [PosOnly].
   Hypothesis Fsorted : f_main_sorted F = true.
+  Hypothesis Fkeys : String.eqb (f_field_pos_key F) (f_main_pos_key F) = true.
 
   Theorem main_meets_spec s parsed :
     sig_wf s = true -> main_safe F s = true -> spec_main veqb s parsed false (main_run F s parsed [] []) = true.
   Proof.
     intros W S. unfold main_run. rewrite (main_setup_ok F Fsorted s S). unfold spec_main.
     destruct parsed as [vals|e]; [|apply err_eqb_refl_local].
-    destruct (main_binds F Fpos Fsorted s vals W) as [B [Hp Hk]]. rewrite B, Hp.
+    destruct (main_binds F Fpos Fsorted Fkeys s vals W) as [B [Hp Hk]]. rewrite B, Hp.
     rewrite bind_eqb_refl, vlist_eqb_refl. cbn [andb].
     apply same_dict_perm; [|exact Hk].
     unfold keys. eapply Permutation_NoDup; [apply Permutation_map, Permutation_sym, Hk|].
@@ -983,6 +995,8 @@ End MeetsCall.
 (* ====================================================================== *)
 Lemma gen_pos_kinds : f_main_pos_kinds facts_gen = [PosOnly]. Proof. reflexivity. Qed.
 Lemma gen_sorted : f_main_sorted facts_gen = true. Proof. reflexivity. Qed.
+(* helpers.field stores `positional` under the metadata key main reads back *)
+Lemma gen_pos_keys : String.eqb (f_field_pos_key facts_gen) (f_main_pos_key facts_gen) = true. Proof. reflexivity. Qed.
 Lemma gen_req_front : f_cf_req_front facts_gen = true. Proof. reflexivity. Qed.
 Lemma gen_skips_ignored : f_cf_skips_ignored facts_gen = true. Proof. reflexivity. Qed.
 Lemma gen_call_site_wins : f_call_site_wins facts_gen = true. Proof. reflexivity. Qed.
@@ -994,6 +1008,32 @@ Lemma gen_cf_custom_ok :
 Proof. vm_compute. split; reflexivity. Qed.
 
 Definition required_first {V} (fs : list (fld V)) : bool := order_ok false fs.
+
+(* ---------- config_for: where a field's type comes from (regenerated if/elif chain) ---------- *)
+(* an annotated parameter's field carries the parameter's own annotation, whatever the class says under the same name *)
+Lemma gen_annotated_param_wins : forall has_hint hint_same has_default,
+  type_source (f_cf_type_chain facts_gen) true has_hint has_default = Some SrcParam
+  /\ field_type_ok (f_cf_type_chain facts_gen) true has_hint hint_same has_default = true.
+Proof. intros [|] [|] [|]; split; reflexivity. Qed.
+(* un-annotated: the class-level hint, else the type inferred from the default, else the parameter is skipped *)
+Lemma gen_unannotated_sources : forall has_default,
+  type_source (f_cf_type_chain facts_gen) false true has_default = Some SrcClass
+  /\ type_source (f_cf_type_chain facts_gen) false false true = Some SrcInfer
+  /\ type_source (f_cf_type_chain facts_gen) false false false = None.
+Proof. intros [|]; repeat split; reflexivity. Qed.
+(* the model's "skipped" test is that chain (p_ann is the effective annotation: own, else class-level) *)
+Lemma gen_untyped_is_chain {V} (over : list (string * V)) (p : param V) :
+  cf_untyped over p =
+  match type_source (f_cf_type_chain facts_gen) (negb (is_none_ann (p_ann p))) false
+                    (match eff_default over p with Some _ => true | None => false end) with
+  | None => true | Some _ => false end.
+Proof. unfold cf_untyped. destruct (is_none_ann (p_ann p)); destruct (eff_default over p); reflexivity. Qed.
+
+(* ---------- config_for: ignore_args given as a str names ONE parameter ---------- *)
+Lemma gen_ignore_names : forall i, ignore_names (f_cf_str_single facts_gen) i = spec_ignore_names i.
+Proof. intros [| | |]; reflexivity. Qed.
+Lemma gen_target_set : f_cf_target_set facts_gen = true. Proof. reflexivity. Qed.
+Lemma gen_parsed_pos_first : f_main_parsed_pos_first facts_gen = true. Proof. reflexivity. Qed.
 
 (* ---------- infer_type_annotation_from_default ---------- *)
 (* the regenerated head of the function types a bool / int / float / str default as exactly its own builtin type *)
@@ -1027,9 +1067,9 @@ Theorem main_partial {V} (s : sig V) vals :
   sig_wf s = true -> main_safe facts_gen s = true -> main_statement s vals.
 Proof.
   intros W S. unfold main_statement. cbn zeta.
-  destruct (main_binds facts_gen gen_pos_kinds gen_sorted s vals W) as [_ [Hp Hk]].
+  destruct (main_binds facts_gen gen_pos_kinds gen_sorted gen_pos_keys s vals W) as [_ [Hp Hk]].
   repeat split.
-  - apply (main_run_safe facts_gen gen_pos_kinds gen_sorted); assumption.
+  - apply (main_run_safe facts_gen gen_pos_kinds gen_sorted gen_pos_keys); assumption.
   - exact Hp.
   - exact Hk.
   - apply (main_fields_perm facts_gen gen_sorted).
@@ -1113,7 +1153,7 @@ Proof. vm_compute. reflexivity. Qed.
 Theorem main_meets_spec_gen {V} (veqb : V -> V -> bool) (s : sig V) parsed :
   (forall v, veqb v v = true) -> sig_wf s = true -> main_safe facts_gen s = true ->
   spec_main veqb s parsed false (main_run facts_gen s parsed [] []) = true.
-Proof. intros R. apply (main_meets_spec veqb R facts_gen gen_pos_kinds gen_sorted). Qed.
+Proof. intros R. apply (main_meets_spec veqb R facts_gen gen_pos_kinds gen_sorted gen_pos_keys). Qed.
 
 (* ---------- config_for ---------- *)
 Theorem config_for_fields {V} (s : sig V) ignore over :
